@@ -1038,7 +1038,9 @@ def stream_e2e_cde(seed, tier, workdir, stream):
         cases.append({"doc": doc, "opts": opts, "info": info, "rooms": rooms, "threads": r.choice([1, 1, 2, 4]), "twin": twin,
                       # (the field may be asked for without any room list: there is nothing to write into it then)
                       "prf": (rooms is not None and r.random() < 0.6) or (rooms is None and i % 5 == 2),
-                      "pair17": rooms is None and i % 5 == 2})
+                      "pair17": rooms is None and i % 5 == 2,
+                      # the listing and the rooms file on the CdE path as well
+                      "print": i % 6 == 1, "rooms_file": rooms is not None and i % 4 == 2})
     return cases
 
 
@@ -1078,7 +1080,20 @@ def lines_e2e_cde(cases, workdir, stream, binary):
                 os.remove(outp)
             prf = ["--possible-rooms-field", "possible_rooms"] if c.get("prf") else []
             rep = ["--report-no-solution"] if want_report(c) else []
-            rc, so, se, to = run_bin(binary, cde_args(c["opts"], c["rooms"], c["threads"]) + rep + prf + [inp, outp])
+            extra = ["--print"] if c.get("print") else []
+            if c.get("rooms_file"):
+                # the same rooms as a rooms file (kinds of equal capacity under different names, capacity runs split)
+                kinds = []
+                for j, cap in enumerate(c["rooms"]):
+                    if kinds and kinds[-1]["capacity"] == cap and j % 3 != 0:
+                        kinds[-1]["quantity"] += 1
+                    else:
+                        kinds.append({"name": ["Seminarraum", "Saal", "Zelt"][len(kinds) % 3], "capacity": cap, "quantity": 1})
+                json.dump(kinds, open(os.path.join(d, "rooms.json"), "w"))
+                main_args = cde_args(c["opts"], None, c["threads"]) + ["--rooms-file", os.path.join(d, "rooms.json")]
+            else:
+                main_args = cde_args(c["opts"], c["rooms"], c["threads"])
+            rc, so, se, to = run_bin(binary, main_args + extra + rep + prf + [inp, outp])
             bad = to or rc not in (0, 1, 65) or "panicked" in se
             out.append(line("direct", ["C10", "C15"], ok=not bad, what=f"exit {rc} timeout {to} stderr tail: {se[-300:]}", case=i, stream=stream, nontrivial=False))
             if c.get("pair17"):
@@ -1138,7 +1153,9 @@ def lines_e2e_cde(cases, workdir, stream, binary):
                 # asked for without a room list: there are no possible rooms to name, the field is not written
                 has = [k for k, v in imp.get("courses", {}).items() if "possible_rooms" in (v.get("fields") or {})]
                 out.append(line("direct", ["C18"], ok=not has, what=f"no room list given, but courses {has[:5]} carry a possible-rooms field", case=i, stream=stream, nontrivial=False))
-            if c.get("prf") and c["rooms"] is not None:
+            # (--print on the CdE path: the listing itself belongs to no property here — C14 speaks of the simple
+            # format — so it is only run, not judged; a crash while printing shows in the first line above)
+            if c.get("prf") and c["rooms"] is not None and not c.get("rooms_file"):
                 payload = json.dumps({"doc": tag(c["doc"]), "opts": c["opts"], "imp": tag(strip_import(imp)), "rooms": c["rooms"], "field": "possible_rooms"}, ensure_ascii=False)
                 out.append(line("spec", ["C18"], "CP", payload, "sound=true nonempty=true", case=i, stream=stream, nontrivial=bool(imp.get("registrations"))))
             # overall quality in the summary (C08)
@@ -1164,7 +1181,8 @@ def lines_e2e_cde(cases, workdir, stream, binary):
             if c["twin"] is not None and c["threads"] == 1:
                 json.dump(c["twin"], open(inp, "w", encoding="utf-8"), ensure_ascii=False)
                 os.remove(outp)
-                rc2, so2, se2, to2 = run_bin(binary, cde_args(c["opts"], c["rooms"], 1) + prf + [inp, outp])
+                twin_args = (cde_args(c["opts"], None, 1) + ["--rooms-file", os.path.join(d, "rooms.json")]) if c.get("rooms_file") else cde_args(c["opts"], c["rooms"], 1)
+                rc2, so2, se2, to2 = run_bin(binary, twin_args + prf + [inp, outp])
                 same = rc2 == rc
                 if same and rc2 == 0:
                     imp2 = json.load(open(outp, encoding="utf-8"))
